@@ -475,4 +475,26 @@ def run(tier, replay=None):
                         'the number of bytes a failed read_exact consumed before UnexpectedEof is left unspecified by its contract and is not compared',
                         'equal panics (same file and message; the variants are separate copies of the code) in all variants on malformed input count as agreement here; they are C03\'s subject',
                         'header encryption halves come from wow_srp through its public constructors (fixed key); the driver encrypts the header bytes of the reference frame']
+    # the protocol-parameterised read/write functions (collective API) are async/blocking triples too
+    try:
+        from monitors import c14
+        pe = common.run_driver(binary, [['pairs', 'P.pairs']], 'c06p', workers=1).get('pairs') or {}
+        fams = {(n, v) for n, d, v in (pe.get('pairs') or [])}
+        prow, pmeta = c14.protocol_rows(tier, random.Random(common.seed() * 7 + 6), 2 if tier == 'quick' else 12)
+        prow = [r for r in prow if (r[2], r[3]) in fams]
+        pev = common.run_driver(binary, prow, 'c06proto', timeout=60)
+        for r in prow:
+            e = pev.get(r[0])
+            if e is None or e.get('result') != 'done':
+                continue
+            v = pmeta[r[0]][0]
+            probs = c14.async_agreement(e)
+            chk.count('protocol-api:' + ('ok' if not probs else 'bad'))
+            if not probs:
+                chk.ok(('protocol-api', v['object'], v['version'], tuple(v['sig'])))
+            for prob, detail in probs:
+                chk.violation({'check': 'protocol-api', 'object': v['object'], 'version': v['version'], 'problem': prob},
+                              {'row': r, 'detail': detail, 'event': e})
+    except ImportError:
+        pass
     return chk.finish()
